@@ -178,6 +178,8 @@ MP_RULE = ("random start/end states (positions within ±1e4 mm, start/end veloci
 
 PROPS["C06"] = dict(
     gen=cases.gen_C06,
+    # the constructor converts f32 seconds to Time through TryFrom<Quantity>: must also work with checking compiled out
+    configs=[(None, "chk"), ("std,devices", "nochk")],
     oracle=cases.oracle_C06,
     project=cases.project_C06,
     precompare=cases.precompare_C06,
@@ -191,6 +193,7 @@ PROPS["C06"] = dict(
 
 PROPS["C07"] = dict(
     gen=cases.gen_C07,
+    configs=[(None, "chk"), ("std,devices", "nochk")],
     oracle=cases.oracle_C07,
     project=cases.project_C07,
     mask={"cat", "time", "unit", "float"},
@@ -254,6 +257,7 @@ PROPS["C20"] = dict(
 
 PROPS["C12"] = dict(
     gen=cases.gen_C12,
+    configs=[(None, "chk"), ("std,devices", "nochk")],
     oracle=cases.oracle_C12,
     line_mask=cases.line_mask_C12,
     mask={"cat", "time", "unit", "float"},
@@ -274,6 +278,8 @@ PROPS["C12"] = dict(
 
 PROPS["C10"] = dict(
     gen=cases.gen_C10,
+    # "panic on wrongly dimensioned input when checking is enabled": every way of enabling it, and the unchecked build
+    configs=[(None, "chk"), ("std,devices", "nochk"), ("release:std,chk,devices", "chk")],
     oracle=cases.oracle_shift("C10"),
     mask={"cat", "time", "unit", "float"},
     tol=NUM_TOL,
